@@ -8,7 +8,7 @@ use crate::scenario::*;
 
 pub const NAME_POOL: &[&str] = &[
     "a", "b", "c", "aa", "ab", "Ab", "A", ".h", "a.b", "a b", "é", "日", "a*b", "[a]", "{a}",
-    "a,b", "a\nb", "b.txt", "x.txt", "B",
+    "a,b", "a\nb", "b.txt", "x.txt", "B", "a\\b",
 ];
 
 #[derive(Clone, Copy, Debug, PartialEq, Eq)]
@@ -362,6 +362,10 @@ impl<'a> Gen<'a> {
                 format!("<{}/:0,2>*", a),
                 format!("<{}/:1,>{}", a, b),
                 "?*/**/?*".to_string(),
+                format!("{{{}/,{}/**/}}*", a, b),
+                format!("{{{}/**/,{}/}}*", a, b),
+                format!("{{{}/{{{}/**,{}}},{}}}", a, b, a, b),
+                format!("*{{/**/{},/{}}}", a, b),
             ];
             return self.rng.pick(&shapes).clone();
         }
@@ -497,7 +501,7 @@ impl<'a> Gen<'a> {
         let x = pick_name(self);
         let y = pick_name(self);
         let (ex, ey) = (esc(&x), esc(&y));
-        let w = self.rng.weighted(&[10, 10, 8, 8, 6, 5, 4, 3, 3, 5, 4, 4, 4, 3, 14, 3, 3]);
+        let w = self.rng.weighted(&[10, 10, 8, 8, 6, 5, 4, 3, 3, 5, 4, 4, 4, 3, 14, 3, 3, 4, 3, 3, 3]);
         match w {
             0 => format!("{}/**", ex),
             1 => format!("**/{}/**", ex),
@@ -516,7 +520,14 @@ impl<'a> Gen<'a> {
             // a full glob in the walk grammar
             14 => self.glob_expr(model, base),
             15 => format!("<*/>{}", ex),
-            _ => format!("**/{}/**/{}/**", ex, ey),
+            16 => format!("**/{}/**/{}/**", ex, ey),
+            // tree wildcards at the edge of a branch that is followed or preceded by more text
+            // (their encoding depends on where the enclosing branch sits; `not` re-wraps the
+            // pattern in one more alternation)
+            17 => format!("{{{}/,{}/**/}}*", ex, ey),
+            18 => format!("{{{}/**/,{}/}}*{}", ex, ey, esc(&x.chars().last().unwrap().to_string())),
+            19 => format!("*{{/**/{},/{}}}", ex, ey),
+            _ => format!("{{{}/{{{}/**,{}}},{}}}", ex, ey, ex, ey),
         }
     }
 
